@@ -1,7 +1,7 @@
 (* Evaluators used by the C08 correspondence cases (harness/src/bin/c08.rs).  Style: stdlib. *)
 From TV Require Import Base.Prelude Generated.Constants
   Columnar.BitPack Columnar.MonoMap Columnar.Stats Columnar.Line Columnar.Blockwise Columnar.OptionalIndex Columnar.Spec
-  Columnar.OptionalIndexProofs Columnar.MultiValued Columnar.MergeIndex Columnar.LegacyV1.
+  Columnar.OptionalIndexProofs Columnar.MultiValued Columnar.MergeIndex Columnar.LegacyV1 Columnar.DictMerge.
 Local Open Scope N_scope.
 
 (* a model reader applied to the implementation's bytes answers `expect` at the indexes `idxs` *)
@@ -48,3 +48,13 @@ Definition v1_stack_tie (inputs : list (bool * N * column)) (impl_rows : column)
   | Some docs => column_eqb (read_merged_rows docs (si_start_offsets stack_num_values_skips_empty ins) values n) impl_rows
   | None => false
   end.
+
+(* stack merge of Str / Bytes columns: the model of the dictionary merge gives the implementation's merged dictionary,
+   and remapping every input ordinal gives the implementation's merged ordinals (row by row).
+   inputs: per segment (its dictionary = sorted distinct terms, its rows of term ordinals) *)
+Definition remap_rows (m : list (option nat)) (rows : list (list nat)) : list (list N) :=
+  map (map (fun o => match nth o m None with Some x => N.of_nat x | None => 0%N end)) rows.
+Definition dict_stack_tie (inputs : list (list term * list (list nat))) (impl_terms : list term) (impl_rows : list (list N)) : bool :=
+  let '(merged, maps) := dict_merge (fun _ _ => true) (map fst inputs) in
+  list_eqb term_eqb merged impl_terms &&
+  column_eqb (concat (map (fun im => remap_rows (snd im) (snd (fst im))) (combine inputs maps))) impl_rows.
